@@ -41,8 +41,9 @@ inductive Fault where
 inductive ReprArg where
   | on
   | off
-  /-- a callable: returns `tag` (`recurse = false`) or `tag<repr(value)>` (`recurse = true`) -/
-  | call (tag : String) (recurse : Bool) (fault : Fault)
+  /-- a callable: returns `tag` (`recurse = false`) or `tag<repr(value)>` (`recurse = true`);
+      `tol`: it is tolerant — `try: r = repr(value) except BaseException: r = "!"` -/
+  | call (tag : String) (recurse : Bool) (fault : Fault) (tol : Bool)
   deriving DecidableEq, Repr, FromJson, ToJson, Inhabited
 
 structure Field where
@@ -132,7 +133,7 @@ def Prog.result? : Prog α → Option α
 /-- how a fragment formats its value: `{acc!r}` or `{name_repr(acc)}` -/
 inductive Fmt where
   | bangR
-  | callG (tag : String) (recurse : Bool) (fault : Fault)
+  | callG (tag : String) (recurse : Bool) (fault : Fault) (tol : Bool)
   deriving DecidableEq, Repr, Inhabited
 
 /-- one `name={…}` fragment of the f-string -/
@@ -149,7 +150,7 @@ def genFrags (attrs : List Field) : List Frag :=
     match a.repr with
     | .off => none
     | .on => some { name := a.name, viaGetattr := !a.init, fmt := .bangR }
-    | .call t r f => some { name := a.name, viaGetattr := !a.init, fmt := .callG t r f }
+    | .call t r f c => some { name := a.name, viaGetattr := !a.init, fmt := .callG t r f c }
 
 /-- `type.__qualname__` as CPython computes it from the nesting of the class statement -/
 def qualChars (c : Cls) : List Char :=
@@ -184,6 +185,17 @@ def access (vals : List (String × Nat)) (fr : Frag) : Acc :=
   | some i => .val i
   | none => if fr.viaGetattr then .nothing else .attrErr
 
+/-- what a tolerant callable makes of the outcome of `repr(value)`: any exception becomes `!`
+    (fuel exhaustion is not an exception of the modelled program and is never swallowed) -/
+def swallow : Out → Out
+  | .exc _ => .ok "!"
+  | r => r
+
+/-- `try: repr(value) except BaseException: "!"` — a catch node of the resumption tree: the
+    bookkeeping state is whatever the failed rendering left behind -/
+def tolerate (tol : Bool) (inner : Prog Out) : Prog Out :=
+  if tol then inner.bind fun r => .done (swallow r) else inner
+
 /-- the instrumented repr callable of the harness, applied to an already evaluated accessor -/
 def callRepr (armed : Bool) (tag : String) (recurse : Bool) (fault : Fault) (inner : Prog Out) :
     Prog Out :=
@@ -208,7 +220,7 @@ def evalFrag (rec : Nat → Prog Out) (armed : Bool) (vals : List (String × Nat
       | _ => .done (.ok "NOTHING")
     match fr.fmt with
     | .bangR => inner
-    | .callG tag rc fault => callRepr armed tag rc fault inner
+    | .callG tag rc fault tol => callRepr armed tag rc fault (tolerate tol inner)
 
 /-- evaluate labelled parts left to right; the first non-`ok` result ends the evaluation -/
 def seqP : List (String × Prog Out) → Prog (Except Out (List String))
